@@ -243,3 +243,9 @@ func AssumeLoopBound(fn string, n int) {}
 
 // StrLess is the byte-wise order of strings (the order of ORM string keys).
 func StrLess(a, b string) bool { return a < b }
+
+// Summarize asks the symbolic engine to replace calls of the named pure function by
+// uninterpreted functions of the scalar leaves of its arguments (same inputs, same
+// outputs; nothing else is assumed). What the function computes is the subject of the
+// harnesses that execute it. No effect natively.
+func Summarize(fullName string) {}
